@@ -28,6 +28,8 @@ m = {"version": 1,
                "baseline_off_cmd": "cd /repo && /venv/bin/python -m pytest -q -p no:cacheprovider --timeout=900", "source_commits": [], "add_only": True},
      "engines": [{"name": "pyvc", "path": "/verif/pyvc", "serves_properties": [c["property_id"] for c in checks],
                   "kind_free_text": "self-built contract-driven VC generator / symbolic executor over the real Python AST; z3 5.1 primary, cvc5 on unknowns; sidecar contracts in /verif/contracts"},
+                 {"name": "lean-lemmas", "path": "/verif/lemmas", "serves_properties": [c["property_id"] for c in checks],
+                  "kind_free_text": "lean 4.33 (core only): the lemma schemas (L1-L4, mod_witness, mod_step, pow2 facts) whose ground instances pyvc states are compiled by every check run; never decides a verdict"},
                  {"name": "native-runner", "path": "/verif/native", "serves_properties": [c["property_id"] for c in checks],
                   "kind_free_text": "replay of counter-models on the real code and bounded stand-ins (labelled bounded)"}],
      "checks": checks,
